@@ -30,6 +30,9 @@ TRUSTED_BASE = [
     "correspondence harness: Rust exact rational scalar Q (cross-checked value-by-value against Lean Rat), line protocol, textual diff",
     "compiled Lean driver (Lean compiler/runtime for Rat and Float, not the kernel)",
     "ndarray 0.16 (Zip, indexing, views), num-traits casts, Rust type system: modelled, not verified",
+    "the translators that regenerate lean/NdInterp/Gen/* from /repo/src on every run (source facts; arithmetic kernels and decision tables; "
+    "statement-level control flow of 22 functions): their reading of Rust (evaluation order, checked reads / usize subtraction / casts, the "
+    "try_fold and Zip idioms) is trusted, their failure mode is 'unavailable', never 'assumed equal'; the FT_* theorems are what ties their output to the model",
 ]
 
 
